@@ -467,9 +467,13 @@ pub fn compute_entity_manifest(
                     // using static analysis
                     entity_manifest_from_expr(&typechecked_expr).map(|val| val.global_trie)
                 }
-                PolicyCheck::Irrelevant(_, _) => {
-                    // this policy is irrelevant, so we need no data
-                    Ok(RootAccessTrie::new())
+                PolicyCheck::Irrelevant(_, typechecked_expr) => {
+                    // this policy can never be satisfied, but the evaluator
+                    // still evaluates it: it needs the same data to find
+                    // that out (e.g., the ancestors of an action literal,
+                    // which the typechecker knows from the schema) and to
+                    // do so without errors
+                    entity_manifest_from_expr(&typechecked_expr).map(|val| val.global_trie)
                 }
 
                 #[expect(
